@@ -217,7 +217,42 @@ def gen_seq_op(r, root, foreign):
         if mix and (not wr or r.random() < 0.6):
             return {'k': 'attach', 'i': r.randrange(len(mix)), 'side': r.choice(['leading', 'trailing']), 'via': via}
         return {'k': 'attach-entry', 'i': r.randrange(len(wr)), 'at': r.randrange(0, 4), 'via': via}
+    top = [i for i, m in enumerate(mix) if any(m is d for d in root.raw_directives)]
+    if c < 0.97 and top:
+        # the blanks next to a top-level directive are rewritten through the string accessors (blank lines appear /
+        # disappear; inside an indented body a blank line would end the body - another document)
+        return {'k': 'spacing', 'i': r.choice(top), 'side': r.choice(['before', 'after']),
+                'v': r.choice(['\n\n', '\n', '\r\n\r\n', '\n\n\n', '\n  \n'])}
     return {'k': 'auto', 'i': r.randrange(len(nodes))}
+
+
+def later_vs_parse(root):
+    """Everything released, then attributed again by auto_claim_comments() on the document as it stands: the same
+    attribution as parsing the printed text (the tokens an edit wrote are the tokens the lexer would produce)."""
+    for m in _mixins(root):
+        for side in ('leading', 'trailing'):
+            try:
+                getattr(m, f'unclaim_{side}_comment')()
+            except Exception:   # noqa: BLE001
+                pass
+    for m, w in _wrappers(root):
+        try:
+            w.unclaim_interleaving_comments()
+        except Exception:   # noqa: BLE001
+            pass
+    root.auto_claim_comments()
+    text = intro.pr(root)
+    try:
+        fresh = P().parse(text, models.File, auto_claim_comments=True)
+    except Exception:   # noqa: BLE001 - the spacing edit made the text unparsable (C06/C17 matter)
+        return []
+    a, b = commentsx.census_key(root), commentsx.census_key(fresh)
+    if len(a) != len(b):
+        return []       # neighbouring comment tokens of the edited document read back as ONE block: not comparable
+    if a != b:
+        d = next((x, y) for x, y in zip(a + [None], b + [None]) if x != y)
+        return [('later-differs-from-parse', f'releasing everything and running auto_claim_comments() on the edited document attributes {d[0]}, parsing its text {d[1]}')]
+    return []
 
 
 def _new_comment(via, indent):
@@ -251,6 +286,12 @@ def apply_seq_op(root, op, foreign, walk=None, replay=None):
                 arg = [foreign if i == -1 else comments[i] for i in op['set'] if i == -1 or i < len(comments)]
             r = getattr(w, op['m'])(arg)
             return f'n{min(len(r), 3)}'
+        if op['k'] == 'spacing':
+            m = _mixins(root)[op['i']]
+            if not hasattr(m, 'spacing_' + op['side']):
+                return 'no-accessor'
+            setattr(m, 'spacing_' + op['side'], op['v'])
+            return 'set'
         if op['k'] == 'attach':
             m = _mixins(root)[op['i']]
             if getattr(m, f'raw_{op["side"]}_comment') is not None:
@@ -282,8 +323,12 @@ def run_sequence(text, auto, ops):
     for n, op in enumerate(ops):
         apply_seq_op(root, op, fc)
         bad = commentsx.check_census(root)
+        if any(o['k'] == 'spacing' for o in ops[:n + 1]):
+            bad = [x for x in bad if 'not-adjacent' not in x[0]]    # a blank line the user put there by hand
         if bad:
             return [(s, f'after step {n} ({op}): {d}') for s, d in bad]
+    if any(op['k'] == 'spacing' for op in ops) and not any(op['k'].startswith('attach') for op in ops):
+        return later_vs_parse(root)
     return []
 
 
@@ -313,10 +358,19 @@ def sequences(ctx, ndocs, nops, walk=None):
             ctx.count(f'seq:{op["k"]}:{op.get("m", "auto_claim_comments")}:{out}')
             ctx.case(('seq', op['k'], op.get('m'), out, min(before, 4), min(after, 4), op.get('set') is not None) if before != after or out not in ('none', 'n0', 'ok') else None)
             bad = commentsx.check_census(root)
+            if any(o['k'] == 'spacing' for o in ops):
+                bad = [x for x in bad if 'not-adjacent' not in x[0]]    # a blank line the user put there by hand
             if bad:
                 sig, what = bad[0]
                 _fail(ctx, sig, f'{what} after {op}', {'kind': 'sequence', 'text': text, 'auto': auto, 'ops': _shrink(text, auto, ops, sig)})
                 break
+        else:
+            if any(op['k'] == 'spacing' for op in ops) and not any(op['k'].startswith('attach') for op in ops):
+                bad = later_vs_parse(root)
+                ctx.count('seq:later-vs-parse')
+                if bad:
+                    sig, what = bad[0]
+                    _fail(ctx, sig, what, {'kind': 'sequence', 'text': text, 'auto': auto, 'ops': _shrink(text, auto, ops, sig)})
 
 
 def _shrink(text, auto, ops, sig):
